@@ -286,8 +286,11 @@ func (x *c06) isPDTRoot(fn *ssa.Function, a ssa.Value, depth int) bool {
 	if _, ok := x.m.resultOf(a, x.activePDT, -1); ok {
 		return true
 	}
-	if b, ok := a.(*ssa.BinOp); ok && (b.Op == token.SHR || b.Op == token.SHL) {
-		return x.isPDTRoot(fn, b.X, depth+1)
+	if b, ok := a.(*ssa.BinOp); ok && (b.Op == token.SHR || b.Op == token.SHL || b.Op == token.AND || b.Op == token.AND_NOT) {
+		// shifted, or masked with a constant (address <-> frame number)
+		if _, isC := b.Y.(*ssa.Const); isC || b.Op == token.SHR || b.Op == token.SHL {
+			return x.isPDTRoot(fn, b.X, depth+1)
+		}
 	}
 	return false
 }
@@ -633,11 +636,9 @@ func (x *c06) recovery(g *IG, ret int) {
 	c, m := x.c, x.m
 	fn := x.pfh
 	fnm := m.fnName(fn)
-	pageFromAddr := m.lookupFunc("mm", "PageFromAddress")
-	pageAddress := m.lookupMethod("mm", "Page", "Address")
 	readCR2 := m.lookupFunc("cpu", "ReadCR2")
-	if pageFromAddr == nil || pageAddress == nil || readCR2 == nil {
-		c.unresolved("C06.R5", "mm.PageFromAddress / mm.Page.Address / cpu.ReadCR2")
+	if readCR2 == nil {
+		c.unresolved("C06.R5", "cpu.ReadCR2")
 		return
 	}
 	// faultPage.Address(): Address(PageFromAddress(uintptr(readCR2())))
@@ -662,13 +663,26 @@ func (x *c06) recovery(g *IG, ret int) {
 		}
 		return false
 	}
+	// the address of the page that MapTemporary returned: that page << PageShift
+	var tmpAddrs []Poly
+	for _, in := range g.Ins {
+		if v, ok := in.(ssa.Value); ok && isIntegral(v.Type()) {
+			if _, ok := m.resultOf(v, x.mapTemp, 0); ok {
+				tmpAddrs = append(tmpAddrs, zf.Of(v).mul(polyConst(int64(x.pageSize))))
+			}
+		}
+	}
 	isTmpAddr := func(v ssa.Value) bool {
-		call, ok := m.resultOf(v, pageAddress, -1)
-		if !ok {
+		if !isIntegral(v.Type()) {
 			return false
 		}
-		_, ok = m.resultOf(call.Common().Args[0], x.mapTemp, 0)
-		return ok
+		p := zf.Of(through(v))
+		for _, want := range tmpAddrs {
+			if p.equal(want) {
+				return true
+			}
+		}
+		return false
 	}
 	isCopy := func(v ssa.Value) bool { _, ok := m.resultOf(v, x.allocFrame, 0); return ok }
 	type step struct {
